@@ -42,6 +42,7 @@ def run_entry(text, entry, judge=None, opts=None, extra_modules=(), guide=None):
     ex.preempt_range = opts.get('preempt_range')
     ex.preempt_in_cs = opts.get('preempt_in_cs', False)
     ex.race_detect = opts.get('race_detect', False)
+    ex.child_first = opts.get('child_first', False)
     if opts.get('concolic_tape') is not None:
         ex.concolic_tape = opts['concolic_tape']
     if opts.get('alloc_policy') is not None:
